@@ -352,6 +352,18 @@ def gen_families(ctx):
     for _ in range(ctx.scale(60, 600)):
         k = rng.choice([2, 2, 3, 4, 5])
         fams.append(("lib", [lib_operand(rng) for _ in range(k)]))
+    # nearly equal operands (relative difference 1e-6 .. 1e-5, i.e. inside numpy.allclose's default tolerance):
+    # an implementation that treats "close" as "equal" drops the slightly wider operand
+    for _ in range(ctx.scale(40, 400)):
+        a = float(rng.choice([1000, 250, -800, 3.5, 1e4]))
+        w = abs(a) * rng.choice([0.5, 1.0, 2.0])
+        e1, e2 = a * rng.choice([2e-6, 4e-6, -3e-6]), abs(a) * rng.choice([5e-6, 1e-5])
+        i1 = ["I", a, a + w]
+        i2 = ["I", a + e1, a + w + e2]
+        third = rng.choice([["N", a + w / 2, "float"], ["P", [[a + w / 4, 200]], [[a + w / 2, 200]]]])
+        ops = [i1, i2, third]
+        rng.shuffle(ops)
+        fams.append(("near-equal", ops))
     # malformed: empty family, foreign objects, non-finite numbers
     fams.append(("malformed", []))
     for bad in (["O", "str"], ["O", "list"], ["O", "ndarray"], ["O", "none"], ["X", "nan"], ["X", "inf"]):
